@@ -358,7 +358,7 @@ Definition add_object (name : string) (d : dloc) : prog unit :=
 
 (* ---------------------------------------------------------------- builtin names the model knows *)
 Definition builtin_names : list string :=
-  ["print"; "puts"; "to_string"; "throw"; "size"; "empty"; "push_back"; "front"; "back"; "pop_back"; "clone"; "what"; "cb"; "eval"].
+  ["print"; "puts"; "to_string"; "throw"; "size"; "empty"; "push_back"; "front"; "back"; "pop_back"; "clone"; "what"; "cb"; "eval"; "int"; "long"; "double"; "float"; "size_t"].
 
 (* ---------------------------------------------------------------- Id lookup (Dispatch_Engine::get_object) *)
 Definition hint_key (n : ast) : string :=
